@@ -63,3 +63,46 @@ Definition check_outer_ht (tol : Q) (noncanon : bool) (shapes : list (list nat))
   forallb (forallb axis_ok) shapes && (length vols =? length shapes)%nat &&
   (length col =? prodl (map prodl shapes))%nat &&
   qc_all_close tol (map fst (outer_ht noncanon 1 shapes vols (unit_vec (prodl (map prodl shapes)) j))) col.
+
+(* ---- the factory HarmonicSmoothingOperator(domain, sigma, space) with its sigma branches -----------
+     sigma = float(sigma)
+     if sigma < 0.:  raise ValueError("sigma must be non-negative")
+     if sigma == 0.: return ScalingOperator(domain, 1.)          # applied to x: x itself
+     ... return Hartley.inverse(diag(Hartley))                   # Model.smooth
+   [sg] is the comparison of sigma with 0; None = the constructor raises. *)
+Definition smooth_op (K : ring_ops) (sg : comparison) (noncanon : bool) (W : nat -> nat -> C K) (g : geo K)
+           (ker : nat -> carrier K) (x : nat -> carrier K) : option (nat -> carrier K) :=
+  match sg with
+  | Lt => None
+  | Eq => Some x
+  | Gt => Some (smooth K noncanon W g ker x)
+  end.
+
+Definition g_smooth_op (sigma : Q) (noncanon : bool) (shape : list nat) (dists : list Q) (ker : list Q)
+           (B A : nat) (x : list Q) : option (list Qc) :=
+  let sg := (sigma ?= 0)%Q in
+  let W := gkern shape in
+  let g := ggeo shape (map Q2Qc dists) false in
+  let kf := fun i => nth i (map Q2Qc ker) 0%Qc in
+  match smooth_op QcK sg noncanon W g kf (fun _ => 0%Qc) with
+  | None => None
+  | Some _ =>
+      let f := fun (v : nat -> QC) (k : nat) =>
+                 (match smooth_op QcK sg noncanon W g kf (fun j => fst (v j)) with
+                  | Some r => r k
+                  | None => 0%Qc
+                  end, 0%Qc) in
+      Some (map fst (g_flat f B shape A (map (fun q => (q, 0%Q)) x)))
+  end.
+
+(* [y = None]: the implementation raised ValueError.  sigma = 0 is compared EXACTLY (tolerance 0). *)
+Definition check_smooth_op (tol : Q) (sigma : Q) (noncanon : bool) (B : nat) (shape : list nat) (dists : list Q)
+           (A : nat) (ker x : list Q) (y : option (list Q)) : bool :=
+  match g_smooth_op sigma noncanon shape dists ker B A x, y with
+  | None, None => true
+  | Some m, Some y' =>
+      forallb axis_ok shape && (length dists =? length shape)%nat && (length ker =? prodl shape)%nat &&
+      (length x =? B * prodl shape * A)%nat &&
+      qc_all_close (match (sigma ?= 0)%Q with Eq => 0 | _ => tol end) m y'
+  | _, _ => false
+  end.
